@@ -2,6 +2,7 @@
 # apply every stored seeded change to /repo in turn, run the quick check of its property (and any extra ids given in
 # tools/seedall.extra as "<seed-dir> <ID>..."), undo it; one line per seed and check in /var/tmp/seedall.log
 # optional arguments: seed directory names (default: all)
+export VERIF_EVIDENCE_DIR=/var/tmp/seed-evidence
 cd /repo && git diff --quiet || { echo "/repo working tree not clean"; exit 2; }
 out=/var/tmp/seedall.log; : > $out
 list="$@"; [ -z "$list" ] && list=$(ls /verif/seeded)
